@@ -588,3 +588,47 @@ Proof.
       simpl concurrent_path. destruct (is_key_of_summarize ks sk); [left; reflexivity|].
       right; eexists; left; (split; [left; reflexivity|repeat eexists]).
 Qed.
+
+(* ---- buildRangePruner: which filters get a key-range pruner ---- *)
+Theorem prunable_or_needs_both a b key :
+  prunable (EBinary 1 a b) key = true -> prunable a key = true /\ prunable b key = true.
+Proof. simpl. intros H. apply andb_true_iff in H. exact H. Qed.
+
+Theorem prunable_and_needs_one a b key :
+  prunable (EAnd a b) key = true -> prunable a key = true \/ prunable b key = true.
+Proof. simpl. intros H. apply orb_true_iff in H. exact H. Qed.
+
+(* A predicate without a comparison of the key with a literal gets no pruner,
+   so an `or` with such a side gets none either. *)
+Fixpoint mentions_key_cmp (e : expr) (key : path) : bool :=
+  match e with
+  | EBinary o a b =>
+    if is_cmp_op o then
+      match a, b with
+      | EThis p, ELit _ => path_eqb p key
+      | ELit _, EThis p => path_eqb p key
+      | _, _ => false
+      end
+    else mentions_key_cmp a key || mentions_key_cmp b key
+  | _ => false
+  end.
+
+Lemma prunable_mentions e key : prunable e key = true -> mentions_key_cmp e key = true.
+Proof.
+  induction e as [p|i|i|o e IH|o a IHa b IHb|i e IH|f args|i]; simpl; try discriminate.
+  destruct (N.eqb o 0) eqn:E0.
+  - apply N.eqb_eq in E0. subst o. simpl. intros H. apply orb_true_iff in H.
+    apply orb_true_iff. destruct H; [left; apply IHa|right; apply IHb]; assumption.
+  - destruct (N.eqb o 1) eqn:E1.
+    + apply N.eqb_eq in E1. subst o. simpl. intros H. apply andb_true_iff in H as [H _].
+      apply orb_true_iff. left. apply IHa. exact H.
+    + destruct (is_cmp_op o); [auto|discriminate].
+Qed.
+
+Theorem or_with_unanalysable_side_not_prunable a b key :
+  mentions_key_cmp b key = false -> prunable (EBinary 1 a b) key = false.
+Proof.
+  intros H. simpl. destruct (prunable b key) eqn:E.
+  - apply prunable_mentions in E. congruence.
+  - apply andb_false_r.
+Qed.
